@@ -301,8 +301,8 @@ pub fn cmd_roundtrip(args: &[String]) -> i32 {
     // default-size streams: the sink finds far more than 65536 samples waiting in one call
     for len in [65537usize, 100000, 300000] {
         let bits: Vec<u32> = (0..len).map(|i| (i as u32).wrapping_mul(2654435761)).collect();
-        writeln!(o, "{}", roundtrip_sz::<u32>(bits.clone(), |v| limbs_u32(*v), usize::MAX, 0)).unwrap();
-        writeln!(o, "{}", roundtrip_sz::<u8>(bits.iter().map(|b| *b as u8).collect(), |v| vec![*v as i64], usize::MAX, 0)).unwrap();
+        writeln!(o, "{}", roundtrip_sz::<u32>(bits.clone(), |v| limbs_u32(*v), 1 << 30, 0)).unwrap();
+        writeln!(o, "{}", roundtrip_sz::<u8>(bits.iter().map(|b| *b as u8).collect(), |v| vec![*v as i64], 1 << 30, 0)).unwrap();
         writeln!(o, "{}", roundtrip_sz::<Float>(bits.iter().map(|b| Float::from_bits(*b)).collect(), |v| limbs_u32(v.to_bits()), 90000, 0)).unwrap();
         n += 3;
     }
